@@ -2,6 +2,7 @@ SPECIFICATION Spec
 CONSTANTS
   Configs <- ConfigsBugSmall
   Budget = 2
+  Window <- WindowAll
   Bug = "AcceptAny"
 INVARIANT TableAtDone
 INVARIANT TableStaysOK
